@@ -24,6 +24,7 @@ RULE = ('cases = CSV files written by the harness (csv.writer, explicit dialect 
         'on_error x strip x limit_rows x name x de-duplication flags; non-trivial: a cell needing quoting | a duplicate '
         'header | a non-default strategy/limit; distinct by case hash. (Package / tuple sources x selectors: see C10, C16.)')
 ASSUMPTIONS = [
+    'limit_rows with on_error=drop: both readings (limit then drop / drop then limit) are accepted - undocumented',
     'cells containing a carriage return are excluded from generation (known finding: tabulator\'s text loader '
     'normalises CR / CRLF inside quoted cells to LF); the finding itself is re-checked from replays/C13/crlf-in-cell.json',
     'files are UTF-8 and the encoding is passed explicitly (chardet guessing is not under test) except for the ASCII class',
@@ -32,7 +33,7 @@ ASSUMPTIONS = [
     'cast_strategy=schema: the reference parse of a cell is tableschema.Field.cast_value with the *emitted* field descriptor',
 ]
 BUDGET = {'quick': dict(examples=1600, shards=8, seconds=70),
-          'thorough': dict(examples=40000, shards=16, seconds=1500)}
+          'thorough': dict(examples=40000, shards=16, seconds=1200)}
 
 HEADERS = ['a', 'b', 'A', 'a (1)', 'a (2)', 'col', 'x y', 'é', 'a,b', 'q"t', 'B', 'a-1', 'n']
 CELLS_HARD = ['', 'x', '1', '-2', '1.5', '007', 'true', '2020-01-31', 'a,b', 'a;b', 'say "hi"', 'line\nbreak',
@@ -48,7 +49,7 @@ def small_case(draw):
     plain = draw(st.integers(0, 5)) == 0
     dup = (not plain) and draw(st.integers(0, 3)) == 0
     if dup:
-        headers = draw(st.lists(st.sampled_from(['a', 'A', 'a (1)', 'a (2)', 'b', 'B', 'a-1']), min_size=ncol, max_size=ncol))
+        headers = draw(st.lists(st.sampled_from(['a', 'A', 'a (1)', 'A (1)', 'a (2)', 'A (2)', 'b', 'B', 'a-1']), min_size=ncol, max_size=ncol))
     else:
         headers = draw(st.lists(st.sampled_from(['c1', 'c2', 'c3', 'name', 'id', 'val'] if plain else HEADERS),
                                 min_size=ncol, max_size=ncol, unique=True))
@@ -60,7 +61,7 @@ def small_case(draw):
         row = []
         for k in colkind:
             if k == 'int' and not plain:
-                row.append(draw(st.sampled_from(['1', '22', '-3', '0', ''])))
+                row.append(draw(st.sampled_from(['1', '22', '-3', '0', '', ' 7', '8 ', ' 9 '])))
             else:
                 row.append(draw(st.sampled_from(pool)))
         rows.append(row)
@@ -91,13 +92,21 @@ def select_case(draw):
     n = draw(st.integers(1, 4))
     names = draw(st.lists(st.sampled_from(gen.RES_NAMES), min_size=n, max_size=n, unique=True))
     sel = draw(st.sampled_from(c10.selector_forms(names) + ['a.b', 'a.*b', '[ab].*', 'res_1.?', 'a|ab|abc']))
-    return {'size': 'select', 'proc': draw(st.sampled_from(['load_package', 'load_tuple'])), 'names': names, 'sel': sel}
+    return {'size': 'select', 'proc': draw(st.sampled_from(['load_package', 'load_tuple'])), 'names': names, 'sel': sel,
+            'limit': draw(st.sampled_from([None, None, 1, 2, 4]))}
+
+
+@st.composite
+def _mix(draw, tier):
+    if gen.rare(draw, 40 if tier == 'thorough' else 15):
+        return draw(big_case())
+    if gen.rare(draw, 120):
+        return draw(select_case())
+    return draw(small_case())
 
 
 def cases(tier):
-    if tier == 'thorough':
-        return st.one_of(*([small_case()] * 20 + [select_case()] * 3 + [big_case()]))
-    return st.one_of(*([small_case()] * 50 + [select_case()] * 8 + [big_case()]))
+    return _mix(tier)
 
 
 def expand_big(c):
@@ -129,6 +138,8 @@ def check(case, ctx):
     if case['size'] == 'select':
         # package / (descriptor, iterators) sources: exactly the requested resources are loaded
         from props import c10
+        if case.get('limit'):
+            return check_select_limit(case, ctx)
         info = c10.check(case, ctx)
         info.classes = ['select:' + case['proc']] + [x for x in info.classes if x.startswith('sel:')]
         return info
@@ -218,8 +229,9 @@ def check(case, ctx):
             if names != ref_headers:
                 raise Violation('header:names', {'got': names, 'file': ref_headers})
         else:
-            if len(set(names)) != len(names):
-                raise Violation('header:dedup-produces-duplicates', {'got': names, 'file': ref_headers})
+            if len(set(map(keyf, names))) != len(names):
+                raise Violation('header:dedup-produces-duplicates', {'got': names, 'file': ref_headers,
+                                                                    'case_sensitive': c['dedup_cs']})
             fmt = c['dedup_fmt'] or ' (%s)'
             pat = re.escape(fmt).replace(re.escape('%s'), r'\d+')
             for got, orig in zip(names, ref_headers):
@@ -261,6 +273,19 @@ def check(case, ctx):
                 exp_rows.append(('cast', row))
         else:
             exp_rows.append(('text', dict(zip(names, cells))))
+    if len(got_rows) != len(exp_rows) and c['cast'] == 'schema' and c['on_error'] == 'drop' and limit:
+        # limit_rows x on_error=drop: the docs do not say whether dropped rows count towards the limit;
+        # the other reading (drop first, then take n) is accepted as well
+        alt = []
+        for r in ref_rows:
+            try:
+                alt.append(('cast', {f.name: f.cast_value(v) for f, v in zip(sfields, r)}))
+            except tableschema.exceptions.CastError:
+                continue
+            if len(alt) >= limit:
+                break
+        if len(alt) == len(got_rows):
+            exp_rows = alt
     if len(got_rows) != len(exp_rows):
         raise Violation('row-count', {'got': len(got_rows), 'expected': len(exp_rows), 'limit': limit,
                                       'file_rows': len(ref_rows)})
@@ -297,3 +322,42 @@ def check(case, ctx):
     if quoting:
         classes.append('needs-quoting')
     return Info(nontrivial=nontrivial, classes=classes)
+
+
+def check_select_limit(case, ctx):
+    """limit_rows on a multi-resource source (data package / (descriptor, iterators) pair): every selected
+    resource yields its first n rows (or, reading the docs' "relevant only when not loading from a
+    datapackage" literally, all of its rows) - the same way for every resource."""
+    from props import c10
+    names, sel, n = case['names'], case['sel'], case['limit']
+    try:
+        idxs = c10.select(sel, names)
+    except (IndexError, re.error):
+        return Info(rejected=True, classes=['select:out-of-domain'])
+    pkg = c10.build_pkg(names)
+    try:
+        if case['proc'] == 'load_package':
+            dp = c10.write_package(pkg, ctx.tmpdir())
+            step = dataflows.load(dp, resources=copy.deepcopy(sel), limit_rows=n)
+        else:
+            step = dataflows.load((gen.descriptor_of(pkg), [iter(copy.deepcopy(r['rows'])) for r in pkg]),
+                                  resources=copy.deepcopy(sel), limit_rows=n)
+        with quiet():
+            res, dp_, _ = Flow(step).results(on_error=None)
+    except Exception as e:
+        raise unexpected(e, 'load with limit_rows')
+    if len(res) != len(idxs):
+        raise Violation('select-limit:resources', {'got': len(res), 'expected': len(idxs)})
+    readings = set()
+    for rows, i in zip(res, idxs):
+        full = pkg[i]['rows']
+        ids = [str(r['id']) for r in rows]
+        if ids == [str(r['id']) for r in full[:n]] and len(full) > n:
+            readings.add('first-n')
+        elif ids == [str(r['id']) for r in full]:
+            readings.add('all' if len(full) > n else 'both')
+        else:
+            raise Violation('select-limit:rows', {'resource': names[i], 'got': len(rows), 'limit': n, 'available': len(full)})
+    if {'first-n', 'all'} <= readings:
+        raise Violation('select-limit:inconsistent-across-resources', {'limit': n})
+    return Info(nontrivial=len(idxs) >= 2, classes=['select-limit:' + case['proc']])
